@@ -47,7 +47,7 @@ fn main() {
     }
     let seed: u64 = std::env::var("VERIF_SEED").ok().and_then(|s| s.parse().ok()).unwrap_or(0);
     // silence the default panic message: panics inside properties are caught and reported
-    std::panic::set_hook(Box::new(|_| {}));
+    vlib::engine::install_panic_hook();
     if id == "calibrate" {
         let fx = vlib::corpus::load();
         let bad = vlib::corpus::calibrate(&fx);
@@ -57,5 +57,23 @@ fn main() {
         }
         std::process::exit(if bad.is_empty() { 0 } else { 2 });
     }
-    vlib::checks::dispatch(&id, vlib::checks::Args { tier, seed, replay })
+    // safety net: a panic that reaches this point escaped every per-case guard (it happened in a
+    // loop on the main thread). Raised inside the library it is a failure of the property's check;
+    // raised inside the harness it is a harness fault (exit 2), never a violation.
+    let id2 = id.clone();
+    let r = std::panic::catch_unwind(std::panic::AssertUnwindSafe(move || -> () { vlib::checks::dispatch(&id2, vlib::checks::Args { tier, seed, replay }) }));
+    let msg = match r {
+        Ok(()) => String::new(),
+        Err(p) => p.downcast_ref::<String>().cloned().or_else(|| p.downcast_ref::<&str>().map(|s| s.to_string())).unwrap_or_default(),
+    };
+    let loc = vlib::engine::last_panic_at();
+    if loc.contains("/repo/") || loc.starts_with("crates/toml") {
+        let _ = std::fs::create_dir_all("/verif/violations");
+        let path = format!("/verif/violations/{id}-panic-{seed}.json");
+        let _ = std::fs::write(&path, format!("{{\"property\": {id:?}, \"sub\": \"panic\", \"message\": {msg:?}, \"location\": {loc:?}, \"note\": \"the library panicked in an unguarded loop of this check; re-run ./check {id} to reproduce\"}}\n"));
+        println!("VIOLATION property={id} replay={path}");
+        println!("  sub-check: panic in the library at {loc}: {msg}");
+        std::process::exit(1);
+    }
+    vlib::engine::fault(&format!("harness panic at {loc}: {msg}"))
 }
